@@ -517,7 +517,12 @@ func (gp *GenginePool) prepare(reqName string, req interface{}, respName string,
 		return nil, e
 	}
 
-	gw.rulebuilder = gp.rbSlice[gw.tag]
+	//the rule set of the instance is replaced by updates under updateLock: read it under that lock, once, into a
+	//view of this request's own, so that the whole execution runs exactly this version
+	gp.updateLock.Lock()
+	shared := gp.rbSlice[gw.tag]
+	gw.rulebuilder = &builder.RuleBuilder{Kc: shared.Kc, Dc: shared.Dc}
+	gp.updateLock.Unlock()
 
 	if reqName != "" && req != nil {
 		gw.rulebuilder.Dc.Add(reqName, req)
@@ -536,7 +541,12 @@ func (gp *GenginePool) prepareWithMultiInput(data map[string]interface{}) (*geng
 		return nil, e
 	}
 
-	gw.rulebuilder = gp.rbSlice[gw.tag]
+	//the rule set of the instance is replaced by updates under updateLock: read it under that lock, once, into a
+	//view of this request's own, so that the whole execution runs exactly this version
+	gp.updateLock.Lock()
+	shared := gp.rbSlice[gw.tag]
+	gw.rulebuilder = &builder.RuleBuilder{Kc: shared.Kc, Dc: shared.Dc}
+	gp.updateLock.Unlock()
 
 	for k, v := range data {
 		//user should not inject "" string or nil value
